@@ -653,6 +653,9 @@ class Machine:
         val = z3.simplify(self.heap[(it.id, "arr")][pos])
         self.heap[(it.id, "pos")] = z3.simplify(pos + 1)
         self.sync(it)
+        f = self.heap.get((it.id, "elem_map"))
+        if f is not None:
+            val = f(self, val)       # structured elements (e.g. a bytes object per item)
         return val
 
     def check_not_owned(self, it):
@@ -742,6 +745,8 @@ class Machine:
         return m(node)
 
     def e_Constant(self, node):
+        if isinstance(node.value, bytes):
+            return tuple(node.value)      # a bytes object is modelled as the tuple of its byte values
         return node.value
 
     def e_Name(self, node):
@@ -762,6 +767,17 @@ class Machine:
                 arr = z3.Store(arr, i, to_real(x) if real else to_z3num(x))
             return self.new_list(elem, arr=arr, length=len(items))
         raise Unsupported("list display of non-numbers")
+
+    def e_Dict(self, node):
+        d = {}
+        for k, v in zip(node.keys, node.values):
+            if k is None:
+                raise Unsupported("dict unpacking in a display")
+            kv = self.eval(k)
+            if not isinstance(kv, (str, int, type(None))):
+                raise Unsupported("dict display with a symbolic key")
+            d[kv] = self.eval(v)
+        return d
 
     def e_IfExp(self, node):
         c = self.eval(node.test)
@@ -883,6 +899,10 @@ class Machine:
                     return a % b
                 if isinstance(op, ast.Pow) and isinstance(b, int) and b >= 0:
                     return a ** b
+                if isinstance(op, ast.LShift) and isinstance(a, int) and isinstance(b, int):
+                    return a << b
+                if isinstance(op, ast.RShift) and isinstance(a, int) and isinstance(b, int):
+                    return a >> b
                 if isinstance(op, ast.Div):
                     if b == 0:
                         raise PyRaise("ZeroDivisionError")
@@ -923,6 +943,12 @@ class Machine:
             if za.sort() == INT:
                 return py_mod_int(za, zb)
             return self.real_mod(za, zb)
+        if isinstance(op, (ast.RShift, ast.LShift)):
+            if isinstance(b, int) and 0 <= b <= 64 and za.sort() == INT:
+                if isinstance(op, ast.LShift):
+                    return za * (2 ** b)
+                return py_floordiv_int(za, z3.IntVal(2 ** b))     # arithmetic shift == floor division
+            raise Unsupported("shift by a symbolic amount")
         if isinstance(op, ast.Pow):
             if not isinstance(b, int) and self.c.binop_hook is not None:
                 r = self.c.binop_hook(self, op, a, b)
@@ -1093,6 +1119,13 @@ class Machine:
             st = self.eval(sl.step) if sl.step else None
             if all(x is None or isinstance(x, int) for x in (lo, hi, st)):
                 return base[slice(lo, hi, st)]
+        h = getattr(self.c, "slice_hook", None)
+        if h is not None:
+            lo = self.eval(sl.lower) if sl.lower else None
+            hi = self.eval(sl.upper) if sl.upper else None
+            r = h(self, base, lo, hi)
+            if r is not NotImplemented:
+                return r
         raise Unsupported("slice of %r" % (base,))
 
     def e_Attribute(self, node):
@@ -1105,6 +1138,16 @@ class Machine:
             if h is None:
                 raise Unsupported("super().%s" % attr)
             return BoundMethod(base.obj, h, attr)
+        if isinstance(base, dict) and attr == "get":
+            d = base
+
+            def dict_get(m, args, kwargs):
+                key = args[0]
+                if not isinstance(key, (str, int, type(None))):
+                    raise Unsupported("dict.get with a symbolic key")
+                return d.get(key, args[1] if len(args) > 1 else None)
+            dict_get._pyvc_callee = True
+            return dict_get
         if isinstance(base, Ref) and base.kind == "obj":
             if (base.id, attr) in self.heap:
                 return self.heap[(base.id, attr)]
@@ -1116,6 +1159,8 @@ class Machine:
             return BoundMethod(base, None, attr)
         if isinstance(base, Module):
             return base.get(attr)
+        if hasattr(base, "pyvc_getattr"):
+            return base.pyvc_getattr(self, attr)
         raise Unsupported("attribute %s of %r" % (attr, base))
 
     def e_Lambda(self, node):
@@ -1143,6 +1188,9 @@ class Machine:
             if isinstance(a, ast.Starred):
                 v = self.eval(a.value)
                 if not isinstance(v, tuple):
+                    if hasattr(v, "pyvc_star") or (isinstance(v, Ref) and v.kind in ("list", "deque")):
+                        args.append(StarSeq(v))      # symbolic-length unpacking: only models accept it
+                        continue
                     raise Unsupported("*args of a non-tuple")
                 args.extend(v)
             else:
@@ -1208,6 +1256,9 @@ class Machine:
 
     def call_nested_def(self, f, args, kwargs):
         node = f.node
+        model = self.c.nested_models.get(node.name)
+        if model is not None:
+            return model(self, args, kwargs)    # the nested function has its own contract: use its postcondition
         a = node.args
         if a.vararg or a.kwarg or a.kwonlyargs:
             raise Unsupported("nested def with *args/**kwargs")
@@ -1565,6 +1616,9 @@ class Machine:
                 h(self, base, t.slice, v)
                 return
             idx = self.eval(t.slice)
+            if isinstance(base, Ref) and base.kind == "ext":
+                self.heap[(base.id, "impl")].setitem(self, base, idx, v)
+                return
             if isinstance(base, Ref) and base.kind == "teelist":
                 # replacing an unread child by an (equivalent) unread tee copy of it
                 if isinstance(idx, int) and idx == 0 and isinstance(v, Ref) and v.kind == "iter":
@@ -1827,10 +1881,15 @@ class Machine:
             self.spec_mode -= 1
 
     # ---- running a whole function -------------------------------------------------------
+    def locals_param(self, name):
+        return self.params0[name]
+
     def bind_params(self):
         mode = self.mode
+        self.params0 = {}
         for name, ty in mode.params.items():
             self.locals[name] = self.make_param(name, ty)
+            self.params0[name] = self.locals[name]
         for text in mode.requires:
             self.assume(self.spec(text))
 
@@ -1908,6 +1967,12 @@ class Machine:
         else:
             self.oblige("raises/%s/never" % exc, False,
                         note="exception %s escapes at line %d%s" % (exc, self.curline, " (StopIteration inside a generator, PEP 479)" if e.exc != exc else ""))
+
+
+class StarSeq:
+    """`*seq` in a call where seq has a symbolic length"""
+    def __init__(self, seq):
+        self.seq = seq
 
 
 class SuperProxy:
@@ -2401,6 +2466,24 @@ def _b_tuple(m, args, kw):
     raise Unsupported("tuple(%r)" % (args[0],))
 
 
+def _b_hasattr(m, args, kw):
+    obj, name = args
+    if hasattr(obj, "pyvc_hasattr"):
+        return obj.pyvc_hasattr(m, name)
+    if isinstance(obj, Ref) and obj.kind == "ext":
+        return m.heap[(obj.id, "impl")].hasattr(m, obj, name)
+    raise Unsupported("hasattr(%r, %r)" % (obj, name))
+
+
+def _b_str(m, args, kw):
+    h = getattr(m.c, "str_hook", None)
+    if h is not None:
+        return h(m, args[0])
+    if isinstance(args[0], (int, str)):
+        return str(args[0])
+    raise Unsupported("str() of a symbolic value")
+
+
 def _b_super(m, args, kw):
     cls, obj = args
     return SuperProxy(cls if isinstance(cls, str) else getattr(cls, "name", str(cls)), obj)
@@ -2411,7 +2494,7 @@ def _b_sum(m, args, kw):
 
 
 BUILTINS = {
-    "super": _b_super, "isinf": _b_isinf, "divmod": _b_divmod, "all": _b_all, "any": _b_any, "tuple": _b_tuple, "random.uniform": _b_uniform,
+    "super": _b_super, "hasattr": _b_hasattr, "str": _b_str, "isinf": _b_isinf, "divmod": _b_divmod, "all": _b_all, "any": _b_any, "tuple": _b_tuple, "random.uniform": _b_uniform,
     "operator.ge": _b_op("ge"), "operator.gt": _b_op("gt"), "operator.le": _b_op("le"), "operator.lt": _b_op("lt"),
     "operator.add": _b_op("add"), "operator.sub": _b_op("sub"), "operator.mul": _b_op("mul"),
     "next": _b_next, "iter": _b_iter, "xrange": _b_xrange, "range": _b_xrange, "len": _b_len, "int": _b_int,
